@@ -28,7 +28,7 @@ FUNCTIONS = ['plasTeX.Context:Context.push', 'plasTeX.Context:Context.pop', 'pla
 RULE = ('one evaluation = one path = one program (or API history) x one class of the query character; non-trivial = the program changes a catcode or a definition inside a scope')
 BOUNDS = {
     'quick': '(a) outer scope kind x inner scope kind (6 x 6) x a seed-rotated ninth (14) of the 125 triples of local edits {none, \\def, \\gdef, \\let+\\def, catcode change} placed before / inside / after '
-             'the inner scope, query character unbounded; (b) environment closed over 1-3 unclosed groups x 5 edits; (c) one API operation from each of 5 stacks x all operations',
+             'the inner scope, query character unbounded; (b) environment closed over 1-3 unclosed groups x 5 edits; (c) one API operation from each of 4 stacks x all operations {push, push for an object, pop, addLocal, addGlobal, catcode, let, newdef under the name of a character alias made in an enclosing frame}, and all 2-operation histories from the 2-frame stack',
     'thorough': '(a) all 125 triples for all 36 scope pairs, plus triple nesting for braces; (c) API histories of length 2',
 }
 ASSUMPTIONS = ['the observer is a user macro (public Command API) that reads context state when it is expanded', 'numbers in \\catcode assignments are terminated by \\relax (normal form)']
@@ -285,6 +285,9 @@ def h_globalprefix(e, scope, form):
 
 
 # ------------------------------------------------------------------------------------------- (c) API histories
+SHADOWED = object()
+
+
 def h_api(e, nframes, nops):
     ctx = Context(load=True)
     q = e.char('q')
@@ -309,10 +312,12 @@ def h_api(e, nframes, nops):
         if i == 0:
             ctx.addLocal('va', mk('va', 'f%d' % i))
             model[-1]['defs']['va'] = 'f%d' % i
+            ctx.let(EscapeSequence('vk'), Other('?'))
+            model[-1]['lets']['vk'] = '?'
         else:
             ctx.catcode('@', 11 + i)
             model[-1]['cat']['@'] = 11 + i
-    OPS = ['push', 'pushobj', 'pop', 'addLocal', 'addGlobal', 'catcode', 'let']
+    OPS = ['push', 'pushobj', 'pop', 'addLocal', 'addGlobal', 'catcode', 'let', 'newdef']
     for k in range(nops):
         op = OPS[e.choice(len(OPS), 'op%d' % k)]
         if op == 'push':
@@ -349,6 +354,11 @@ def h_api(e, nframes, nops):
         elif op == 'let':
             ctx.let(EscapeSequence('vl'), Other('!'))
             model[-1]['lets']['vl'] = '!'
+        elif op == 'newdef':
+            # a local \def under the name of a character alias of an enclosing frame: while it is live TeX shows the definition
+            # (plasTeX keeps showing the alias - known finding F43, nothing is asserted there); once its frame closes the alias is back
+            ctx.newdef('vk', None, 'D%d' % k, local=True)
+            model[-1]['lets']['vk'] = SHADOWED
         _check_api(e, ctx, model, q, base)
     e.nontriv()
 
@@ -365,9 +375,17 @@ def _check_api(e, ctx, model, q, base):
             e.check(nm not in ctx, 'name %s visible though no live frame defines it' % nm, 'api-lookup')
         else:
             e.check(nm in ctx and ctx[nm].str == want, 'lookup of %s does not yield the innermost live definition' % nm, 'api-lookup')
-    tok = ctx.get_let(EscapeSequence('vl'))
-    want = any('vl' in f['lets'] for f in model)
-    e.check((str(tok) == '!') == want, '\\let alias visible=%s, model says %s' % (str(tok) == '!', want), 'api-let')
+    for nm in ('vl', 'vk'):
+        tok = ctx.get_let(EscapeSequence(nm))
+        want = None
+        for f in reversed(model):
+            if nm in f['lets']:
+                want = f['lets'][nm]
+                break
+        if want is SHADOWED:
+            continue
+        e.check((str(tok) != nm) == (want is not None) and (want is None or str(tok) == want),
+                '\\let alias \\%s resolves to %r, the innermost live frame that sets it says %r' % (nm, str(tok), want), 'api-let')
     mm = Model()
     mm.frames = [{'defs': {}, 'cat': f['cat']} for f in model]
     e.check(ctx.whichCode(q) == mm.cat(e, q), 'category of the query character differs from the frame model', 'api-catcode')
